@@ -321,7 +321,57 @@ func tagsFormats(res *vkit.Result) {
 			return "http/json", "[" + strings.Join(xs, ",\n") + "]\n"
 		},
 	}
-	for _, name := range []string{"uri", "uripost", "raw", "jsonline-lines", "jsonline-array"} {
+	// every second entry without a tag: those are reported as __EMPTY__, never with a neighbour's tag
+	mixed := map[string]func() (string, string){
+		"uri-mixed": func() (string, string) {
+			var b strings.Builder
+			for i := 0; i < entries; i++ {
+				if i%2 == 0 {
+					fmt.Fprintf(&b, "/u%d tag%d\n", i, i)
+				} else {
+					fmt.Fprintf(&b, "/u%d\n", i)
+				}
+			}
+			return "uri", b.String()
+		},
+		"jsonline-lines-mixed": func() (string, string) {
+			var b strings.Builder
+			for i := 0; i < entries; i++ {
+				if i%2 == 0 {
+					fmt.Fprintf(&b, `{"host":"h.example","method":"GET","uri":"/j%d","tag":"tag%d"}`+"\n", i, i)
+				} else {
+					fmt.Fprintf(&b, `{"host":"h.example","method":"GET","uri":"/j%d"}`+"\n", i)
+				}
+			}
+			return "http/json", b.String()
+		},
+		"jsonline-array-mixed": func() (string, string) {
+			var xs []string
+			for i := 0; i < entries; i++ {
+				if i%2 == 0 {
+					xs = append(xs, fmt.Sprintf(`{"host":"h.example","method":"GET","uri":"/a%d","tag":"tag%d"}`, i, i))
+				} else {
+					xs = append(xs, fmt.Sprintf(`{"host":"h.example","method":"GET","uri":"/a%d"}`, i))
+				}
+			}
+			return "http/json", "[" + strings.Join(xs, ",\n") + "]\n"
+		},
+		"uripost-mixed": func() (string, string) {
+			var b strings.Builder
+			for i := 0; i < entries; i++ {
+				if i%2 == 0 {
+					fmt.Fprintf(&b, "5 /p%d tag%d\nhello\n", i, i)
+				} else {
+					fmt.Fprintf(&b, "5 /p%d\nhello\n", i)
+				}
+			}
+			return "uripost", b.String()
+		},
+	}
+	for k, v := range mixed {
+		files[k] = v
+	}
+	for _, name := range []string{"uri", "uripost", "raw", "jsonline-lines", "jsonline-array", "uri-mixed", "uripost-mixed", "jsonline-lines-mixed", "jsonline-array-mixed"} {
 		for _, preload := range []bool{false, true} {
 			for _, instances := range []int{1, 3} {
 				typ, text := files[name]()
@@ -344,6 +394,10 @@ func tagsFormats(res *vkit.Result) {
 				}
 				want := map[string]int{}
 				for i := 0; i < entries; i++ {
+					if strings.HasSuffix(name, "-mixed") && i%2 == 1 {
+						want["__EMPTY__"] += passes
+						continue
+					}
 					want[fmt.Sprintf("tag%d", i)] = passes
 				}
 				if fmt.Sprint(got) != fmt.Sprint(want) {
